@@ -388,6 +388,23 @@ pub fn gen_fb_events(rng: &mut Rng, exact_multiples: bool) -> (Vec<FbEv>, Vec<(u
     (evs, blocks)
 }
 pub fn s6_filterblock(d: &mut Driver, rep: &mut Report, rng: &mut Rng, n: usize) {
+    // one block with thousands of keys: a single filter far longer than the 2 KiB range it belongs to
+    for nk in [1700usize, 2600].iter() {
+        let keys: Vec<Vec<u8>> = (0..*nk).map(|i| format!("k{:05}", i).into_bytes()).collect();
+        let mut evs: Vec<FbEv> = keys.iter().map(|k| FbEv::Key(k.clone())).collect();
+        evs.push(FbEv::Start(30000));
+        let pol = PolKind::Bloom(10);
+        if let Ok(blk) = fb_build_impl(&pol, &evs) {
+            rep.count("s6_long_filter_blocks");
+            for k in [keys[0].clone(), keys[*nk / 2].clone(), b"absent-1".to_vec(), b"absent-2".to_vec(), b"zz".to_vec()].iter() {
+                let m = fb_match_impl(&pol, &blk, 0, k);
+                if keys.contains(k) && m != "ok true" {
+                    rep.judge_fail(J::obj(vec![("stream", J::s("S6 filterblock")), ("what", J::s("filter block denies a key added to the block at this offset")), ("keys_in_block", J::N(*nk as i64)), ("key", J::s(&hex(k))), ("impl", J::s(&m))]));
+                }
+                expect(d, rep, "S6 filterblock", &format!("fb_match {} {} {} {}", pol.name(), hex(&blk), 0, hex(k)), &m);
+            }
+        }
+    }
     for i in 0..n {
         let pol = match rng.below(5) {
             0 => PolKind::NoFilter,
